@@ -545,7 +545,8 @@ func runPair(e *c08Env) *drv.Failure {
 				return drv.Failf("valid-frame-refused", "encode", "%s: Encode refused a valid frame over the agreed channel set: %v", what, err)
 			}
 			if got := int(codec.VerifSeqNum(enc.cdc)); got != len(enc.states) {
-				return drv.Failf("harness", "seq-model", "%s: encoder sequence number %d, model has %d states", what, got, len(enc.states))
+				// every Update accepted before this Encode must be in force for it
+				return drv.Failf("encoder-state-behind", "encode-after-updates", "%s: after %d accepted updates the encoder encoded under state number %d (it must encode under the latest agreed channel set)", what, len(enc.states), got)
 			}
 			if len(b) >= 1 {
 				fmt.Fprintf(&e.trace, "%02x/%d", b[0], len(b))
@@ -602,7 +603,7 @@ func runPair(e *c08Env) *drv.Failure {
 			// decoder's processed + pending updates must be what the model applied
 			pend, _ := codec.VerifPending(dec.cdc)
 			if got := int(codec.VerifSeqNum(dec.cdc)) + pend; got != len(dec.states) {
-				return drv.Failf("harness", "seq-model", "%s: decoder has %d processed+pending updates, model %d", what, got, len(dec.states))
+				return drv.Failf("update-lost", "decoder", "%s: the decoder holds %d processed+pending updates after %d accepted Update calls", what, got, len(dec.states))
 			}
 		}
 	}
